@@ -102,6 +102,17 @@ class C13(XsProp):
             pre = 'xs limits 3000 200 -'
             cs.append('%s | clone | push %s | eval %s | stack | use 1 | push %s | eval %s | stack' % (
                 pre, cells.fmt(('V', vec)), hexsrc(w), cells.fmt(('V', tvec)), hexsrc(w)))
+        # values that were tagged twice by the tag words themselves (wrappers must not nest), then ordinary words
+        retag = ['2 "b" insert-tag', '^{ 3 "c" ^}', '"k" remove-tag', '^hex', '2 "b" insert-tag 4 "d" insert-tag', '{ 5 "e" } with-tags']
+        uses = [('I7', ['1 +', 'neg', '3 <', 'dup *', '>real', '2 bsl', '7 equal?', 'int?', '1 swap -']), ('V(I10,I20)', ['1 nth', 'length', '5 swap push', 'reverse', '0 get']),
+                ('S6162', ['length', '0 1 slice', '"ab" equal?']), ('B1010', ['length', 'bitstr-not', '|f| bitstr-append']), ('T', ['not', 'if 1 else 2 then'])]
+        for v, ws in uses:
+            plain = cells.parse(v)
+            for rt in retag:
+                for w in ws:
+                    tg = ('G', plain, tagm)
+                    cs.append('xs limits 3000 200 - | clone | push %s | eval %s | stack | use 1 | push %s | eval %s | stack' % (
+                        cells.fmt(plain), hexsrc(w), cells.fmt(tg), hexsrc(rt + ' ' + w)))
         # control words look through tags too: conditions, case selectors, loop bounds, assertions
         ctl = [('{C} if 10 else 20 then', ['N', 'T', 'F']), ('0 begin 1 + dup 3 > {C} or until', ['N', 'F']), ('{C} assert 5', ['T', 'F', 'N']),
                ('{C} not', ['T', 'F']), ('{C} case 1 of 10 endof 2 of 20 endof 30 endcase', ['I1', 'I2', 'I7', 'S61']),
